@@ -513,7 +513,11 @@ func scenarios(quick bool) []scenario {
 	for _, roles := range [][]string{{"P1", "C1"}, {"P2", "C3", "X"}, {"P2", "X"}, {"X", "X"}, {"P1", "O", "X"}, {"P1", "P1", "C3", "X"},
 		{"S2", "S2"}, {"S2", "S2", "C3"}, {"S1", "S1", "S1", "X"}, {"G2", "G2"}, {"G1", "G1", "C2"}} {
 		for _, c := range caps {
-			out = append(out, scenario{Cap: c, Roles: roles, Bound: spb, Script: true})
+			b := spb
+			if quick && len(roles) >= 4 {
+				b = 1 // 5 script threads (main + 4): PB 2 does not finish inside the quick deadline
+			}
+			out = append(out, scenario{Cap: c, Roles: roles, Bound: b, Script: true})
 		}
 	}
 	if !quick {
